@@ -84,6 +84,7 @@ pub struct Outcome {
     pub blocked_first: Option<&'static str>,
     pub stdin_closed_by_parent: bool,
     pub ncalls: u64,
+    pub eintr_hit: u32,
 }
 
 thread_local! {
@@ -261,7 +262,7 @@ pub fn run_simk(case: &SimkCase) -> Outcome {
             rec.eof_out = eof(1, sim);
             rec.eof_err = eof(2, sim);
             let ok = rec.ok;
-            let timed_out = rec.err_kind == Some(std::io::ErrorKind::TimedOut);
+            let timed_out = rec.err_kind == Some(std::io::ErrorKind::TimedOut) || rec.err_kind == Some(std::io::ErrorKind::Interrupted);
             let empty = rec.out.as_ref().map(|v| v.is_empty()).unwrap_or(true)
                 && rec.err.as_ref().map(|v| v.is_empty()).unwrap_or(true)
                 && rec.out_s.as_ref().map(|v| v.is_empty()).unwrap_or(true)
@@ -318,6 +319,7 @@ pub fn run_simk(case: &SimkCase) -> Outcome {
         blocked_first: sim.parent_blocked_first,
         stdin_closed_by_parent: stdin_closed,
         ncalls: sim.ncalls,
+        eintr_hit: sim.eintr_hit,
     }
 }
 
@@ -637,6 +639,13 @@ pub fn judge_c04(case: &SimkCase, o: &Outcome) -> CaseResult {
                     ));
                 }
                 // lateness: at most one bounded I/O step after the deadline
+                let slack = 1_000_000 + 16 * case.sim.cost_ns as i64;
+                if r.t_end > d.saturating_add(slack) {
+                    return Err(Fail::new(
+                        "C04:returns-late",
+                        format!("read #{} returned {} ns after its deadline (allowed: one bounded I/O step = {} ns)\n{}", i, r.t_end - d, slack, describe(case, o)),
+                    ));
+                }
                 if r.polls_after_deadline > 2 || r.io_after_deadline > 6 {
                     return Err(Fail::new(
                         "C04:overrun",
@@ -903,9 +912,14 @@ pub fn case_strategy(focus: Focus) -> impl Strategy<Value = SimkCase> {
                 reads_strategy(focus),
                 prop_oneof![4 => Just(false), 1 => Just(true)],
                 prop_oneof![3 => Just(1_000u32), 2 => Just(50_000u32), 1 => Just(1_000_000u32)],
+                if focus == Focus::C04 {
+                    prop_oneof![3 => Just(vec![]), 2 => prop::collection::vec(prop_oneof![2 => Just(0u8), 1 => 1u8..250], 1..24)].boxed()
+                } else {
+                    Just(vec![]).boxed()
+                },
             )
         })
-        .prop_map(move |((streams, caps, flavour, content), (template, script, finite), ilen, iseed, (sched, tail), sr, sw, reads, sv, cost)| {
+        .prop_map(move |((streams, caps, flavour, content), (template, script, finite), ilen, iseed, (sched, tail), sr, sw, reads, sv, cost, eintr)| {
             let string_variant = sv && focus == Focus::C02 && reads.len() == 1;
             let mut reads = reads;
             if !finite {
@@ -923,7 +937,7 @@ pub fn case_strategy(focus: Focus) -> impl Strategy<Value = SimkCase> {
             }
             SimkCase {
                 template,
-                sim: SimCfg { streams, caps, flavour, script, content, sched, sched_tail: tail, short_read: sr, short_write: sw, cost_ns: cost },
+                sim: SimCfg { streams, caps, flavour, script, content, sched, sched_tail: tail, short_read: sr, short_write: sw, cost_ns: cost, eintr },
                 input: InputSpec { len: if streams & 1 != 0 { ilen } else { 0 }, seed: iseed % 1000, kind: content },
                 reads,
                 string_variant,
@@ -957,6 +971,7 @@ fn classify(focus: Focus, case: &SimkCase, o: &Outcome, rep: &mut CaseReport) {
     rep.count("short_reads_hit", o.short_reads_hit as u64);
     rep.count("short_writes_hit", o.short_writes_hit as u64);
     rep.count("parent_calls", o.ncalls);
+    rep.count("polls_interrupted_by_signal", o.eintr_hit as u64);
     match focus {
         Focus::C01 => {
             let big = in_c == ">cap" || out_c == ">cap" || err_c == ">cap";
@@ -1029,8 +1044,8 @@ fn worker_for(focus: Focus, ctx: &Ctx) {
         }
     }
     let n = match focus {
-        Focus::C01 | Focus::C02 => ctx.tier.pick(4000, 150_000),
-        _ => ctx.tier.pick(3000, 100_000),
+        Focus::C01 | Focus::C02 => ctx.tier.pick(12_000, 150_000),
+        _ => ctx.tier.pick(8000, 100_000),
     };
     let name = match focus {
         Focus::C01 => "c01-simk",
